@@ -282,7 +282,10 @@ class Unit:
                 j += 1
             tail = txt[last:bc]
             if tail.strip():
-                txt = txt[:last] + '\n        let ret__ = ' + tail.strip() + ';\n        ret__\n    ' + txt[bc:]
+                # the binding carries the function's return type (a tail such as `.collect()` is typed by it)
+                mrt = re.search(r'->\s*(.+?)\s*(?:where\b.*)?$', txt[fo:bo].strip(), re.S)
+                ann = (': ' + ' '.join(mrt.group(1).split())) if mrt and 'impl ' not in mrt.group(1) else ''
+                txt = txt[:last] + '\n        let ret__' + ann + ' = ' + tail.strip() + ';\n        ret__\n    ' + txt[bc:]
                 notes.add('R23', 'tail expression bound to ret__')
         lifted_lambdas = []
         for (nm, arg, lines, nth) in s.subs:
@@ -369,7 +372,22 @@ class Unit:
                 # the anchor may sit inside nested blocks (an `else` branch): close them after the replacement call
                 inner = m2[bo + 1:semi]
                 depth = inner.count('{') - inner.count('}')
-                txt = txt[:semi + 1] + '\n        vf_dropped_tail()\n    ' + ('}' * depth) + txt[bc:]
+                if depth > 0:
+                    # only the rest of the innermost block that contains the anchor is dropped; what follows that block stays
+                    # under contract
+                    d = 0
+                    j = semi + 1
+                    while j < bc:
+                        if m2[j] == '{':
+                            d += 1
+                        elif m2[j] == '}':
+                            if d == 0:
+                                break
+                            d -= 1
+                        j += 1
+                    txt = txt[:semi + 1] + '\n        vf_dropped_tail()\n    ' + txt[j:]
+                else:
+                    txt = txt[:semi + 1] + '\n        vf_dropped_tail()\n    ' + txt[bc:]
                 notes.add('DROPTAIL', 'body after `%s` dropped (not under contract): %s' % (anc, ' '.join(lines).strip()))
         emit_name = s.opt('rename') or fn
         if s.opt('rename'):
